@@ -187,7 +187,14 @@ pub fn load_known_findings() -> Vec<KnownFinding> {
         for p in paths {
             if let Ok(text) = std::fs::read_to_string(&p) {
                 match serde_json::from_str::<Vec<KnownFinding>>(&text) {
-                    Ok(v) => all.extend(v),
+                    Ok(v) => {
+                        for f in v {
+                            // known_findings.json is generated from the fragments; skip duplicates
+                            if !all.iter().any(|a| a.property == f.property && a.key == f.key) {
+                                all.push(f);
+                            }
+                        }
+                    }
                     Err(e) => {
                         eprintln!("{} does not parse: {e}", p.display());
                         std::process::exit(2);
